@@ -407,7 +407,9 @@ func (c *Ctx) Finish(verifDir string, seed int, start time.Time, explanation str
 	}
 	if len(viol) > 0 {
 		code = 1
-		replay := filepath.Join(verifDir, "evidence", c.Prop+".replay.json")
+		// kept apart from evidence/ (which holds only schema-valid evidence files)
+		os.MkdirAll(filepath.Join(verifDir, "replay"), 0o755)
+		replay := filepath.Join(verifDir, "replay", c.Prop+".json")
 		rb, _ := json.MarshalIndent(map[string]any{"property": c.Prop, "violations": viol,
 			"replay": "/verif/bin/fpcheck -prop " + c.Prop + " -only <key>"}, "", " ")
 		os.WriteFile(replay, append(rb, '\n'), 0o644)
